@@ -118,6 +118,19 @@ class Scheduler:
                 self.cv.wait()
             self.state[me] = "running"
 
+    def park(self):
+        """suspend the calling thread (e.g. holding a partially consumed iterator) until every other
+        thread is done or cannot run; returns the names of the threads that were still blocked then"""
+        me = threading.get_ident()
+        with self.cv:
+            self.state[me] = "parked"
+            self.current = None
+            self.cv.notify_all()
+            while self.current != me:
+                self.cv.wait()
+            self.state[me] = "running"
+            return sorted(self.names[t] for t, s in self.state.items() if s == "blocked")
+
     def tracer(self, frame, event, arg):
         if frame.f_code.co_filename.endswith("permset.py"):
             if event == "line":
@@ -178,7 +191,20 @@ class Scheduler:
                 live = [t for t, s in self.state.items() if s != "done"]
                 if not live:
                     break
-                cand = [t for t in live if self.state[t] == "ready"] or live
+                ready = [t for t in live if self.state[t] == "ready"]
+                blocked = [t for t in live if self.state[t] == "blocked"]
+                parked = [t for t in live if self.state[t] == "parked"]
+                if ready:
+                    cand = ready
+                elif blocked and not parked:
+                    cand = blocked              # blocked threads re-check their lock
+                elif blocked and parked:
+                    # nobody can run except by resuming a suspended thread: give the blocked ones a few
+                    # chances to get their lock first, then resume a parked one (which records who stalled)
+                    self.stall_rounds = getattr(self, "stall_rounds", 0) + 1
+                    cand = blocked if self.stall_rounds % 4 else parked
+                else:
+                    cand = parked or live
                 self.current = self.choose(cand)
                 self.last = self.current
                 self.steps += 1
@@ -229,6 +255,14 @@ def run_conc(basis_str, queries, seed, policy, precreate):
                     return c02.canon_full(av.up_to_length(int(arg)))
                 if kind == "I":
                     return fbool(Perm(pseq(arg)) in av)
+                if kind == "P":
+                    # a partially consumed up_to_length iterator is kept open while the other threads run
+                    g = iter(av.up_to_length(int(arg)))
+                    items = list(itertools.islice(g, 1))
+                    stalled = sch.park()
+                    items.extend(g)
+                    out = c02.canon_full(items)
+                    return out if not stalled else "STALLS-OTHER-THREADS:%s:%s" % (",".join(map(str, stalled)), out)
                 raise ValueError(kind)
             return f
 
@@ -262,7 +296,7 @@ def oracle_outs(basis_str, queries):
             outs.append(str(len(oc.level(int(a)))))
         elif k == "L":
             outs.append(c02.canon_full(oc.level(int(a))))
-        elif k == "U":
+        elif k in ("U", "P"):
             outs.append(c02.canon_full([p for i in range(int(a) + 1) for p in oc.level(i)]))
         else:
             outs.append(fbool(oc.member(pseq(a))))
@@ -319,6 +353,8 @@ def rand_query(rng, maxlen, mesh):
         return "L%d" % n
     if r < 0.8:
         return "I%s" % fseq(c02.rand_perm(rng, n))
+    if r < 0.9:
+        return "P%d" % min(n, ml - 1)
     return "U%d" % min(n, ml - 1)
 
 
@@ -345,7 +381,7 @@ def run(ctx):
     maxlen = 6 if quick else 7
     specs = [("0,2,1", "C4;L5", 1, "random", True), ("0,1,2;2,0,1,3", "C5;C3;U4", 2, "sticky", True),
              ("0,2,1", "L6;L6;C2;I0,1,2,3", 3, "switch", True), ("1,0/0.0,1.1", "C4;L3;I1,0,2", 4, "random", True),
-             ("0,1,2", "C5;C5", 5, "random", False)]
+             ("0,1,2", "C5;C5", 5, "random", False), ("0,2,1;2,1,0,3", "P5;C3;I0,1;L2", 6, "random", True)]
     specs += gen_specs(rng, n, maxlen)
     cases = list(ctx.pool.map(eval_case, specs, chunksize=4))
     ctx.compare_precomputed("scheduled-runs", cases)
